@@ -377,3 +377,30 @@ PROPS["C11"] = dict(
         seeded("conns", "e2e", "^TestC11$", 40 if tier == "quick" else 700, 16, timeout=900 if tier == "quick" else 3400, journal=True, shrinktime="60s"),
     ],
 )
+
+PROPS["C13"] = dict(
+    title="Close is complete; lifecycle callbacks are balanced and ordered",
+    pkg="e2e",
+    rule=("rapid-generated worlds: a live server (plain or TLS, write queue 8..256) with 1..4 peers, each brought to a drawn protocol step "
+          "(connected / described or announced / set up / streaming / paused): library clients reading over UDP, TCP, HTTP tunnel or WebSocket, a "
+          "library client publishing over UDP or TCP, raw TCP readers that start playing and never drain their socket; optionally a flood (the "
+          "stream and the publishers keep writing RTP and RTCP while everything is closed); then 1..4 close operations drawn from Server.Close, "
+          "ServerStream.Close, Client.Close(k), ServerSession.Close(k), ServerConn.Close(k), each after 0..20 ms and either sequentially or "
+          "concurrently with the previous ones; finally whatever is left is closed. Oracle: every Close returns within read+write timeout + 2.5 s; "
+          "the handler log has exactly one close per connection-open and session-open; no handler callback and no RTP/RTCP packet callback of a "
+          "session is positioned, in the global callback order, after that session's close notification; no client packet callback starts after "
+          "that client's Close returned; 3 s later no goroutine of the library created by the case is left and the number of open sockets is back "
+          "to what it was before the server started. A second generator (kind clientclose) closes a library client at a drawn step of a play or "
+          "record exchange with a scripted server that, from a drawn request on, sends unsolicited OPTIONS requests or interleaved frames every "
+          "50..5000 us (the library's own server never sends requests): Close returns within the bound and leaves no goroutine or socket. "
+          "Non-trivial: a flood is running and >=1 peer is streaming when the first close is issued. "
+          "Distinct by case hash."),
+    assumptions=[
+        "goroutine interleavings are sampled by repetition (16 processes, GOMAXPROCS as given), not enumerated; the thorough tier adds a -race build",
+        "latency verdicts are withheld (counted) when the process itself was stalled by more than 500 ms",
+    ],
+    jobs=lambda tier: [
+        seeded("closes", "e2e", "^TestC13$", 150 if tier == "quick" else 3000, 16, timeout=900 if tier == "quick" else 3400, journal=True, shrinktime="30s"),
+        seeded("client-close", "e2e", "^TestC13ClientClose$", 150 if tier == "quick" else 3000, 8, timeout=900 if tier == "quick" else 3400, journal=True, shrinktime="30s"),
+    ] + ([seeded("closes-race", "e2e", "^TestC13$", 400, 8, timeout=3400, journal=True, race=True, shrinktime="30s")] if tier == "thorough" else []),
+)
